@@ -2576,6 +2576,10 @@ def ensure_unique_bound_variables(  # noqa: C901
         }
 
         old_used_names = set(used_names)
+        # The "in" variable of a quantifier is not in the scope of the quantifier's own
+        # bound variables: it must not be renamed along with them, even if it carries
+        # the same name (as in `forall <a> x in start: exists <b> x in x: ...`).
+        in_variable = formula.in_variable
         formula = formula.substitute_variables(
             fresh_vars(
                 formula.bound_variables(),
@@ -2588,7 +2592,7 @@ def ensure_unique_bound_variables(  # noqa: C901
         if isinstance(formula, ForallFormula):
             return ForallFormula(
                 formula.bound_variable,
-                formula.in_variable,
+                in_variable,
                 ensure_unique_bound_variables(formula.inner_formula, used_names),
                 formula.bind_expression,
                 formula.already_matched,
@@ -2596,7 +2600,7 @@ def ensure_unique_bound_variables(  # noqa: C901
         else:
             return ExistsFormula(
                 formula.bound_variable,
-                formula.in_variable,
+                in_variable,
                 ensure_unique_bound_variables(formula.inner_formula, used_names),
                 formula.bind_expression,
             )
